@@ -217,7 +217,7 @@ func (ex *Exec) oblige(st *State, kind, name string, goal *Term, src string) *Ob
 			return &Obligation{Name: ex.fi.Key + "#" + name, Kind: kind, Func: ex.fi.Key, Guard: st.guard, Goal: goal, ex: ex}
 		}
 	}
-	o := &Obligation{Name: ex.fi.Key + "#" + name, Kind: kind, Func: ex.fi.Key, Guard: st.guard, Goal: goal, NDecl: len(ex.decls), Unfold: ex.unfoldDepth(), Src: src, ex: ex, Inputs: ex.inputs}
+	o := &Obligation{Name: ex.oblPrefix() + "#" + name, Kind: kind, Func: ex.fi.Key, Guard: st.guard, Goal: goal, NDecl: len(ex.decls), Unfold: ex.unfoldDepth(), Src: src, ex: ex, Inputs: ex.inputs}
 	if ex.fc != nil {
 		o.Props = ex.fc.Props
 		o.Reveal = ex.fc.Reveal
@@ -231,6 +231,16 @@ func (ex *Exec) coverPoint(st *State, kind, where string) {
 	ex.coverN++
 	o := ex.oblige(st, "cover", fmt.Sprintf("cover.%s%d", kind, ex.coverN), tFalse, where+": "+kind+" reachable")
 	o.Cover = true
+}
+
+// oblPrefix: obligations of a contract variant carry the variant in their name.
+func (ex *Exec) oblPrefix() string {
+	if ex.fc != nil {
+		if i := strings.Index(ex.fc.Key, "@"); i >= 0 {
+			return ex.fi.Key + ex.fc.Key[i:]
+		}
+	}
+	return ex.fi.Key
 }
 
 func (ex *Exec) unfoldDepth() int {
@@ -479,7 +489,11 @@ func (ex *Exec) constVal(cv constant.Value, t types.Type) *Val {
 	case constant.String:
 		s := constant.StringVal(cv)
 		str := ex.w.Reg.unint("Str")
-		return tv(cnst("str_"+fmt.Sprintf("%x", s), str), t)
+		name := "str_" + fmt.Sprintf("%x", s)
+		if s == "" {
+			name = "str_empty"
+		}
+		return tv(cnst(name, str), t)
 	}
 	panic(unsupported("constant kind"))
 }
@@ -792,6 +806,13 @@ func (ex *Exec) indexVal(st *State, base, idx *Val, at ast.Node) *Val {
 			return r
 		}
 	}
+	if base.T.S.Kind == KUnint && base.T.S.Name == "Str" {
+		ex.safeN++
+		ex.oblige(st, "safe", fmt.Sprintf("safe.index.%d", ex.safeN), tAnd(mk("<=", SBool, intLit(0), idxT), mk("<", SBool, idxT, mk("strlen", SInt, base.T))), where+": string index in range")
+		b := mk("strAt", SInt, base.T, idxT)
+		ex.assume(st, tAnd(mk("<=", SBool, intLit(0), b), mk("<=", SBool, b, intLit(255))))
+		return tv(b, types.Typ[types.Uint8])
+	}
 	if base.T.S.IsSlice {
 		ex.safeN++
 		ex.oblige(st, "safe", fmt.Sprintf("safe.index.%d", ex.safeN), tAnd(mk("<=", SBool, intLit(0), idxT), mk("<", SBool, idxT, ex.sliceLen(base.T))), where+": slice index in range")
@@ -834,6 +855,22 @@ func (ex *Exec) evalSlice(st *State, e *ast.SliceExpr) *Val {
 			return tv(tMkDT(s, base.T, intLit(0), intLit(arr.Len())), types.NewSlice(arr.Elem()))
 		}
 		panic(unsupported("array slicing " + where))
+	}
+	if base.T.S.Kind == KUnint && base.T.S.Name == "Str" {
+		ln := mk("strlen", SInt, base.T)
+		lo := intLit(0)
+		if e.Low != nil {
+			lo = ex.eval(st, e.Low).T
+		}
+		hi := ln
+		if e.High != nil {
+			hi = ex.eval(st, e.High).T
+		}
+		ex.safeN++
+		ex.oblige(st, "safe", fmt.Sprintf("safe.slice.%d", ex.safeN), tAnd(mk("<=", SBool, intLit(0), lo), mk("<=", SBool, lo, hi), mk("<=", SBool, hi, ln)), where+": string slice bounds")
+		r := mk("strSub", base.T.S, base.T, lo, hi)
+		ex.assume(st, tEq(mk("strlen", SInt, r), mk("-", SInt, hi, lo)))
+		return tv(r, base.GoT)
 	}
 	if !base.T.S.IsSlice {
 		panic(unsupported("slicing " + where))
